@@ -34,6 +34,8 @@ MODULES = {
     'fancy_keys': dict(src='fancy_keys.rs', structural=['Row'], move_display=True),
     'fancy_layout_interpreting': dict(src='fancy_layout_interpreting.rs', n1=True,
                                       n3=['iterate_combinations']),
+    'physical_keyboard_layouts': dict(src='physical_keyboard_layouts.rs', only=[], uses=['use crate::{fancy_keys::Row, key_codes::KeyCode};']),
+    'char_production_map': dict(src='char_production_map.rs', only=['struct SinkKey'], uses=['use crate::keys::KeyCode;']),
     'remapping_loop': dict(src='remapping_loop.rs', only=['enum WorkingRepeat', 'enum Device', 'enum PollResult',
                                                          'trait Driver', 'enum Next', 'fn do_remapping_loop_one_device'],
                            uses=['use crate::keys::{Layout, Event, KeyCode};', 'use crate::key_transforms;', 'use crate::key_transforms::ResultingRepeat;',
@@ -156,7 +158,7 @@ def assemble_module(asm, name, with_contracts=True):
                                   annotated=annotated, changed_tokens=changed))
     asm.add('\n} // verus!\n')
     if moved_out:
-        asm.add('use std::fmt::Display;\n' + '\n'.join(moved_out) + '\n')
+        asm.add('\n'.join(moved_out) + '\n')
     if cfg.get('post'): asm.add(cfg['post'])
     asm.add('} // mod %s\n' % name)
 
